@@ -1,4 +1,4 @@
-import Pyrtma.Proofs.ManagerSimConn
+import Pyrtma.Proofs.ManagerSimAdj
 import Pyrtma.Proofs.ManagerSimLog
 /-!
 # Refinement of the history-based Spec by the manager model M1 — part 6: rounds and histories
@@ -215,11 +215,11 @@ theorem go_skip (cfg : Cfg) (a : A) (rd : Read) (rest : List Read) (segs : List 
 theorem go_take (cfg : Cfg) (a : A) (rd : Read) (rest : List Read) (evs : List Ev) (segs : List (Nat × List Ev))
     (fuel : Nat) (m : AMod) (h : a.live rd.uid = some m) :
     Spec.roundBody.go cfg a (rd :: rest) ((rd.uid, evs) :: segs) (fuel + 1) =
-      Spec.roundBody.go cfg (Spec.segment cfg (Spec.checkNoticeOrigin cfg a (some rd) evs) rd evs) rest segs fuel := by
+      Spec.roundBody.go cfg (Spec.segment cfg (Spec.preSeg cfg a rd evs) rd evs) rest segs fuel := by
   rw [Spec.roundBody.go.eq_def]
   simp only []
   obtain ⟨hg, hal⟩ := Spec.live_some.mp h
-  simp [hg, hal]
+  simp [hg, hal, Spec.preSeg]
 
 /-- with no segment left, `go` only reports (under C03) the frames that were never read -/
 theorem go_nil_ext (cfg : Cfg) : ∀ (reads : List Read) (a : A) (fuel : Nat),
@@ -247,11 +247,14 @@ theorem go_dead (cfg : Cfg) : ∀ (reads : List Read) (a : A) (fuel : Nat), (∀
 theorem readAll_cons (cfg : Cfg) (rd : Read) (rest : List Read) (s : State) :
     readAll cfg (rd :: rest) s = readAll cfg rest (readOne cfg s rd) := rfl
 
-theorem quietTo_refl {cfg : Cfg} {s : State} (t : Top cfg s) (j : J s) : QuietTo cfg s s :=
-  ⟨Nest.refl s, t, j, Quiet.refl _ s, fun _ => Quiet.refl _ s, infoTo_refl _ _ s⟩
+theorem quietTo_refl {cfg : Cfg} {s : State} (t : Top cfg s) (j : J s) (tt : T s) : QuietTo cfg s s :=
+  ⟨Nest.refl s, t, j, Quiet.refl _ s, fun _ => Quiet.refl _ s, infoTo_refl _ _ s, Dep.refl _ _ _ s, tt⟩
+
+theorem ordOK_of_perm {cfg : Cfg} (hperm : OrdPerm cfg) : OrdOK cfg :=
+  fun l hl => ⟨(hperm l).nodup_iff.mpr hl, fun x hx => (hperm l).mem_iff.mp hx⟩
 
 section loop
-variable {cfg : Cfg} (ok : CfgOK cfg) (hfuel : cfg.fuel = 0) (hperm : OrdPerm cfg)
+variable {cfg : Cfg} (ok : CfgOK cfg) (hfuel : cfg.fuel = 0) (hperm : OrdPerm cfg) (hmt : cfg.mtClosed ≠ cfg.allTypes)
 include ok hfuel
 
 /-- the log only grows while frames are read -/
@@ -266,7 +269,7 @@ theorem readAll_out : ∀ (reads : List Read) (s : State), Top cfg s → ∃ E, 
       obtain ⟨E1, h1, _⟩ := readOne_evt cfg s rd t.good.ok m hm
       exact ⟨Ev.rd rd.uid :: E1 ++ E2, by rw [h2, h1]; simp⟩
 
-include hperm
+include hperm hmt
 
 /-- **The reading loop.**  Either no frame of `reads` is handled (all their connections are gone), or the Spec's loop over
 the same frames and the segments of the model's events ends in a state that simulates the model's, with no violation of
@@ -322,15 +325,17 @@ theorem readAll_go : ∀ (reads : List Read) (a : A) (s sQ : State) (E : List Ev
           rw [← he, hE2, hE1]; simp
         exact List.append_cancel_left this
       -- the C14 origin check only appends error entries
-      have invN : ∀ evs', Inv cfg (Spec.checkNoticeOrigin cfg a (some rd) evs') s := fun evs' =>
-        ⟨sim_coreExt inv.sim (Spec.checkNoticeOrigin_ext cfg a (some rd) evs').core, inv.top, inv.j⟩
-      have errN : ∀ evs' p, p ∈ proven → Spec.NoErr p a → Spec.NoErr p (Spec.checkNoticeOrigin cfg a (some rd) evs') :=
-        fun evs' p hp hn => (Spec.checkNoticeOrigin_ext cfg a (some rd) evs').noErr (fun h => proven_not hp (by
+      have invN : ∀ evs', Inv cfg (Spec.preSeg cfg a rd evs') s := fun evs' =>
+        ⟨sim_coreExt inv.sim (Spec.preSeg_ext cfg a rd evs').core, inv.top, inv.j, inv.t⟩
+      have errN : ∀ evs' p, p ∈ proven → Spec.NoErr p a → Spec.NoErr p (Spec.preSeg cfg a rd evs') :=
+        fun evs' p hp hn => (Spec.preSeg_ext cfg a rd evs').noErr (fun h => proven_not hp (by
           simp only [List.mem_singleton] at h; subst h; simp [others])) hn
       -- the abstract state after this frame alone
-      have hx := segment_ok ok hfuel hperm (invN E1) rd hu0 m hm (readOne cfg s rd) (quietTo_refl t1 j1) E1 hE1
-      rcases readAll_go rest (Spec.segment cfg (Spec.checkNoticeOrigin cfg a (some rd) E1) rd E1) (readOne cfg s rd) sQ
-          (E2a ++ E2b) fuel ⟨hx.1.sim, hx.1.top, hx.1.j⟩ hwf' hlen' q hE2 with ⟨h1, h2, h2'⟩ | ⟨h1, h2, h3, h4⟩
+      have tt1 : T (readOne cfg s rd) :=
+        T_of_A inv.t (ta_readOne ok hmt (ordOK_of_perm hperm) hfuel inv.top rd).2
+      have hx := segment_ok ok hfuel hperm (invN E1) rd hu0 m hm (readOne cfg s rd) (quietTo_refl t1 j1 tt1) E1 hE1
+      rcases readAll_go rest (Spec.segment cfg (Spec.preSeg cfg a rd E1) rd E1) (readOne cfg s rd) sQ
+          (E2a ++ E2b) fuel ⟨hx.1.sim, hx.1.top, hx.1.j, hx.1.t⟩ hwf' hlen' q hE2 with ⟨h1, h2, h2'⟩ | ⟨h1, h2, h3, h4⟩
       · -- the last frame handled in this round: the continuation's events belong to its segment
         rw [h2] at q
         have hsplit : Spec.splitRd E = ([], [(rd.uid, E1 ++ (E2a ++ E2b))]) := by
@@ -343,11 +348,11 @@ theorem readAll_go : ∀ (reads : List Read) (a : A) (s sQ : State) (E : List Ev
           (by rw [he, hE]; simp)
         rw [hsplit]
         -- the remaining frames are pending on connections that are gone
-        have hdead : ∀ x ∈ rest, (Spec.segment cfg (Spec.checkNoticeOrigin cfg a (some rd) (E1 ++ (E2a ++ E2b))) rd
+        have hdead : ∀ x ∈ rest, (Spec.segment cfg (Spec.preSeg cfg a rd (E1 ++ (E2a ++ E2b))) rd
             (E1 ++ (E2a ++ E2b))).live x.uid = none := by
           intro x hx
           have hgone : sQ.find x.uid = none := nest_gone q.nest q.top.aopen x.uid (h2' x hx)
-          cases hl : (Spec.segment cfg (Spec.checkNoticeOrigin cfg a (some rd) (E1 ++ (E2a ++ E2b))) rd
+          cases hl : (Spec.segment cfg (Spec.preSeg cfg a rd (E1 ++ (E2a ++ E2b))) rd
               (E1 ++ (E2a ++ E2b))).live x.uid with
           | none => rfl
           | some y =>
@@ -569,10 +574,30 @@ def roundRest (cfg : Cfg) (a3 : A) (reads : List Read) (pre : List Ev) (segs : L
   roundEnd cfg (Spec.roundBody.go cfg (goStart cfg a3 pre) reads segs (reads.length + segs.length + 1)) pre segs
 
 theorem goStart_ext (cfg : Cfg) (a3 : A) (pre : List Ev) :
-    ∃ X, Spec.CoreExt others a3 X ∧ goStart cfg a3 pre = Spec.applyDepartures X pre :=
-  ⟨_, ((ext_others (Spec.errExt_chk ["C07"] a3 _ "C07" _ (by simp))).trans
-    (ext_others (Spec.checkNoticeOrigin_ext cfg _ none pre))).trans
-    (ext_others (Spec.checkDepartures_ext cfg _ none pre)), rfl⟩
+    ∃ X, Spec.CoreExt ("C07" :: others) a3 X ∧ goStart cfg a3 pre = Spec.applyDepartures X pre :=
+  ⟨_, (((Spec.errExt_chk ["C07"] a3 _ "C07" _ (by simp)).mono (by simp)).core.trans
+    ((Spec.checkNoticeOrigin_ext cfg _ none pre).mono (by simp [others])).core).trans
+    ((Spec.checkDepartures_ext cfg _ none pre).mono (by simp [others])).core, rfl⟩
+
+/-- the C07 clauses of the stretch before the first frame read, from the simulation at its end and its departure facts -/
+theorem goStart_c07 {cfg : Cfg} {a3 : A} {sE : State} (pre0 pre : List Ev) (hs : Sim cfg (Spec.applyDepartures a3 pre) sE)
+    (ao : AllOpen sE) (j : J sE) (t : T sE) (he : sE.out = pre0 ++ pre) (d : DepE cfg none none sE pre)
+    (hn : Spec.NoErr "C07" a3) : Spec.NoErr "C07" (goStart cfg a3 pre) := by
+  unfold goStart
+  have h1 : ((Spec.closes pre).isEmpty || !(Spec.wfails pre).isEmpty) = true := by
+    cases hc : Spec.closes pre with
+    | nil => rfl
+    | cons v rest =>
+      have hv : Ev.close v ∈ pre := (mem_closes pre v).mp (by rw [hc]; simp)
+      have hw : Ev.wfail v ∈ pre := (d.just v hv).resolve_left (by simp)
+      have : v ∈ Spec.wfails pre := (Spec.mem_wfails pre v).mpr hw
+      cases hwf : Spec.wfails pre with
+      | nil => rw [hwf] at this; cases this
+      | cons _ _ => rfl
+  rw [Spec.chk_of _ _ _ _ h1]
+  have hN := Spec.checkNoticeOrigin_ext cfg a3 none pre
+  have hD := dep_ext_fin pre0 pre hs ao j t he hN.core none d (fun u hu => by cases hu)
+  exact noErr_applyDepartures pre (hD.noErr (by simp) (hN.noErr (by simp) hn))
 
 theorem roundEnd_ext (cfg : Cfg) (a : A) (pre : List Ev) (segs : List (Nat × List Ev)) :
     Spec.CoreExt others a (roundEnd cfg a pre segs) := by
@@ -755,37 +780,131 @@ theorem pre_ok {a : A} {s : State} (inv : Inv cfg a s) (r : Round) (hwf : ∀ rd
 
 end pre
 
+section preDep
+variable {cfg : Cfg} (ok : CfgOK cfg) (hfuel : cfg.fuel = 0) (hall : OrdAll cfg)
+include ok hfuel hall
+
+/-- rounds in which a new connection is accepted read no frame: the INFO log line of `accept` is delivered with the
+    writable set of the *previous* `select` (it is sampled afresh only afterwards, and only when there is a frame to
+    read), while the Spec judges the whole stretch before the first frame read with the new one — the two agree when the
+    new set is empty -/
+def AccOK (s : State) (r : Round) : Prop := r.accept = true → readsS s r = []
+
+omit ok hfuel hall in
+/-- nobody becomes able to take a CLIENT_CLOSED frame by `accept` with an empty writable set: the new table entry is
+    subscribed to nothing -/
+theorem back_accept (cfg : Cfg) {sL : State} (inv : SubInv cfg sL) :
+    Back cfg sL { sL with nextUid := sL.nextUid + 1, mods := sL.mods ++ [{ uid := sL.nextUid + 1 }], wlist := [] } := by
+  intro o' ⟨m, hm, hc, hf, hi, hw⟩
+  have hin : ∃ t, o' ∈ idxGet sL.idx t := by
+    rcases hi with x | x
+    · exact ⟨_, x⟩
+    · exact ⟨_, x⟩
+  obtain ⟨t, ht⟩ := hin
+  obtain ⟨m', hm', _⟩ := inv.sub t o' ht
+  have hm2 : (sL.mods ++ [({ uid := sL.nextUid + 1 } : Module)]).find? (·.uid == o') = some m := hm
+  rw [List.find?_append] at hm2
+  have hm3 : sL.mods.find? (·.uid == o') = some m' := hm'
+  rw [hm3] at hm2
+  simp at hm2
+  subst hm2
+  refine ⟨m', hm', hc, hf, hi, ?_⟩
+  rcases hw with x | x
+  · cases x
+  · exact Or.inr x
+
+/-- the departure facts of the preamble of a round -/
+theorem pre_dep {s : State} (h : Top cfg s) (r : Round) (hacc : AccOK s r) : Dep cfg none none s (preS cfg s r) := by
+  have t1 : Top cfg (envStep s r) := top_same ok hfuel h _ rfl rfl rfl
+  unfold preS
+  dsimp only
+  have hrd : r.reads.filter (fun rd => ((envStep s r).find rd.uid).isSome) = readsS s r := rfl
+  rw [hrd]
+  generalize hs1 : envStep s r = s1 at t1
+  have ho1 : s1.out = s.out := by rw [← hs1]; rfl
+  cases hacc' : r.accept with
+  | false =>
+    simp only [Bool.false_or, Bool.false_eq_true, if_false]
+    split
+    · exact dep_same ho1
+    · exact dep_same ho1
+  | true =>
+    have hre : readsS s r = [] := hacc hacc'
+    simp only [Bool.true_or, if_true, hre, List.isEmpty_nil]
+    have dL := dt_log ok hall hfuel t1 20
+    generalize hsL : logAt cfg (fwdTop cfg) 20 s1 = sL at dL
+    have hacS : acceptStep cfg s1 = { sL with nextUid := sL.nextUid + 1, mods := sL.mods ++ [{ uid := sL.nextUid + 1 }] } := by
+      unfold acceptStep; rw [hsL]
+    rw [hacS]
+    obtain ⟨e, o, d⟩ := dL.dep
+    exact ⟨e, by show sL.out = _; rw [o, ho1], d.back (back_accept cfg dL.top.good.inv)⟩
+
+end preDep
+
+section preT
+variable {cfg : Cfg} (ok : CfgOK cfg) (hmt : cfg.mtClosed ≠ cfg.allTypes) (hord : OrdOK cfg) (hfuel : cfg.fuel = 0)
+include ok hmt hord hfuel
+
+theorem pre_T {s : State} (h : Top cfg s) (ht : T s) (r : Round) : T (preS cfg s r) := by
+  have h0 : TA cfg s (envStep s r) := by unfold envStep; exact ta_same ok hmt hord hfuel h _ rfl rfl rfl rfl rfl
+  have t0 := T_of_A ht h0.2
+  unfold preS
+  dsimp only
+  generalize envStep s r = e at h0 t0
+  split
+  · have ha : Top cfg (if r.accept then acceptStep cfg e else e) ∧ T (if r.accept then acceptStep cfg e else e) := by
+      split
+      · exact ⟨top_accept ok hfuel h0.1, accept_T ok hmt hord hfuel h0.1 t0⟩
+      · exact ⟨h0.1, t0⟩
+    generalize (if r.accept then acceptStep cfg e else e) = a at ha
+    exact T_of_A ha.2 (fun o v => stepA_same rfl rfl rfl)
+  · exact t0
+
+end preT
+
 /-! ## one round -/
 
 /-- rounds the generator produces: frames are read from connections, never from the manager's own table entry -/
 def RoundWF (r : Round) : Prop := ∀ rd ∈ r.reads, rd.uid ≠ 0
 
 section round
-variable {cfg : Cfg} (ok : CfgOK cfg) (hfuel : cfg.fuel = 0) (hperm : OrdPerm cfg)
-include ok hfuel hperm
+variable {cfg : Cfg} (ok : CfgOK cfg) (hfuel : cfg.fuel = 0) (hperm : OrdPerm cfg) (hmt : cfg.mtClosed ≠ cfg.allTypes)
+include ok hfuel hperm hmt
 
 /-- **One round.**  If the abstract state simulates the model state, then after the model has played round `r` and the
 Spec has replayed the round against the events the model wrote in it, the simulation holds again and no clause of a
-proved property was reported violated. -/
+proved property was reported violated (for C07: in a round that meets `AccOK`). -/
 theorem round_ok {a : A} {s : State} (inv : Inv cfg a s) (r : Round) (hwf : RoundWF r) (evs : List Ev)
     (he : (step cfg s r).out = s.out ++ evs) :
     Inv cfg (Spec.round cfg a r evs) (step cfg s r) ∧
-    (∀ p ∈ proven, Spec.NoErr p a → Spec.NoErr p (Spec.round cfg a r evs)) := by
+    (∀ p ∈ proven, (p = "C07" → AccOK s r) → Spec.NoErr p a → Spec.NoErr p (Spec.round cfg a r evs)) := by
+  have hord : OrdOK cfg := ordOK_of_perm hperm
+  have hall : OrdAll cfg := OrdAll_of_perm hperm
+  have tStep : T (step cfg s r) := step_T ok hmt hord hfuel inv.top inv.t r
+  have tPre : T (preS cfg s r) := pre_T ok hmt hord hfuel inv.top inv.t r
+  have dPre : AccOK s r → Dep cfg none none s (preS cfg s r) := pre_dep ok hfuel hall inv.top r
   rw [round_eq]
-  rw [step_eq cfg s r inv.top.good.ok] at he ⊢
+  rw [step_eq cfg s r inv.top.good.ok] at he tStep ⊢
   obtain ⟨eAcc, hPout, hnoAcc, hsP, tP, jP, hreads, herrs⟩ := pre_ok ok hfuel inv r hwf
   rw [hreads]
   have hwf' : ∀ rd ∈ readsS s r, rd.uid ≠ 0 := fun rd hrd => hwf rd (List.mem_filter.mp hrd).1
+  have dPre' : AccOK s r → DepE cfg none none (preS cfg s r) eAcc := by
+    intro h
+    obtain ⟨e, o, d⟩ := dPre h
+    have : e = eAcc := List.append_cancel_left (o.symm.trans hPout)
+    rw [← this]; exact d
+  generalize hAcc : AccOK s r = acc at dPre'
   generalize readsS s r = reads at *
   generalize preS cfg s r = sP at *
   generalize preA a r = a3 at *
   have hdP : (sP.mods.map (·.uid)).Nodup := hsP.minv.distinct
   have tR := top_readAll ok hfuel reads tP
   have jR : J (readAll cfg reads sP) := readAll_J cfg reads jP
+  have dtK := dt_ticks ok hall hfuel tR
   have q : QuietTo cfg (readAll cfg reads sP) (ticks cfg (readAll cfg reads sP)) :=
     ⟨ticks_nest cfg _, top_ticks ok hfuel tR, ticks_J cfg jR, qa_ticks cfg _,
       fun k => quiet_of_QE (ticks_QE cfg (tag_cp cfg k) (ctl_cp k) _),
-      ticks_info cfg _ ((readAll_usub cfg reads sP).nodup hdP)⟩
+      ticks_info cfg _ ((readAll_usub cfg reads sP).nodup hdP), dtK.dep, tStep⟩
   obtain ⟨E1, hE1⟩ := readAll_out ok hfuel reads sP tP
   obtain ⟨E2, hE2, _, _⟩ := q.nest.ext
   have hE : (ticks cfg (readAll cfg reads sP)).out = sP.out ++ (E1 ++ E2) := by rw [hE2, hE1, List.append_assoc]
@@ -796,13 +915,20 @@ theorem round_ok {a : A} {s : State} (inv : Inv cfg a s) (r : Round) (hwf : Roun
   rw [← hevs] at hsplit
   obtain ⟨X0, hX0, hgs0⟩ := goStart_ext cfg a3 eAcc
   have inv0 : Inv cfg (goStart cfg a3 eAcc) sP := by
-    rw [hgs0]; exact ⟨sim_coreExt hsP (Spec.applyDepartures_coreExt hX0 eAcc), tP, jP⟩
-  have herr0 : ∀ p ∈ proven, Spec.NoErr p a → Spec.NoErr p (goStart cfg a3 eAcc) := by
-    intro p hp hn
-    rw [hgs0]
-    exact noErr_applyDepartures eAcc (hX0.noErr (proven_not hp) (by unfold Spec.NoErr; rw [herrs]; exact hn))
+    rw [hgs0]; exact ⟨sim_coreExt hsP (Spec.applyDepartures_coreExt hX0 eAcc), tP, jP, tPre⟩
+  have herr0 : ∀ p ∈ proven, (p = "C07" → acc) → Spec.NoErr p a → Spec.NoErr p (goStart cfg a3 eAcc) := by
+    intro p hp hc hn
+    have hn3 : Spec.NoErr p a3 := by unfold Spec.NoErr; rw [herrs]; exact hn
+    by_cases h7 : p = "C07"
+    · subst h7
+      exact goStart_c07 s.out eAcc hsP tP.aopen jP tPre hPout (dPre' (hc rfl)) hn3
+    · rw [hgs0]
+      refine noErr_applyDepartures eAcc (hX0.noErr (fun hm => ?_) hn3)
+      rcases List.mem_cons.mp hm with x | x
+      · exact h7 x
+      · exact proven_not hp x
   unfold roundRest
-  rcases readAll_go ok hfuel hperm reads (goStart cfg a3 eAcc) sP (ticks cfg (readAll cfg reads sP)) (E1 ++ E2)
+  rcases readAll_go ok hfuel hperm hmt reads (goStart cfg a3 eAcc) sP (ticks cfg (readAll cfg reads sP)) (E1 ++ E2)
       (reads.length + (Spec.splitRd (E1 ++ E2)).2.length + 1) inv0 hwf' (by omega) q hE with
       ⟨hnoE, hid, hskip⟩ | ⟨hp1, hp2, hp3, hp4⟩
   · -- no frame was read in this round
@@ -810,13 +936,12 @@ theorem round_ok {a : A} {s : State} (inv : Inv cfg a s) (r : Round) (hwf : Roun
     rw [hsplit, hs2, ← hevs]
     simp only [List.length_nil, Nat.add_zero]
     obtain ⟨X, hX, hgs⟩ := goStart_ext cfg a3 evs
+    have hsimA : Sim cfg (Spec.applyDepartures a3 evs) (ticks cfg (readAll cfg reads sP)) := by
+      rw [hevs, ← applyDepartures_append]
+      have hn : Nest sP (ticks cfg (readAll cfg reads sP)) := by rw [hid]; exact ticks_nest cfg sP
+      exact sim_quiet hsP tP.aopen q.top.aopen hn q.j (E1 ++ E2) hE
     have hsimT : Sim cfg (goStart cfg a3 evs) (ticks cfg (readAll cfg reads sP)) := by
-      rw [hgs, hevs, ← applyDepartures_append]
-      have h1 : Sim cfg (Spec.applyDepartures (Spec.applyDepartures a3 eAcc) (E1 ++ E2)) (ticks cfg (readAll cfg reads sP)) := by
-        have hn : Nest sP (ticks cfg (readAll cfg reads sP)) := by rw [hid]; exact ticks_nest cfg sP
-        exact sim_quiet hsP tP.aopen q.top.aopen hn q.j (E1 ++ E2) hE
-      rw [applyDepartures_append] at h1 ⊢
-      exact sim_coreExt h1 (Spec.applyDepartures_coreExt hX _)
+      rw [hgs]; exact sim_coreExt hsimA (Spec.applyDepartures_coreExt hX _)
     have hdead : ∀ x ∈ reads, (goStart cfg a3 evs).live x.uid = none := by
       intro x hx
       have hgone : (ticks cfg (readAll cfg reads sP)).find x.uid = none :=
@@ -828,17 +953,36 @@ theorem round_ok {a : A} {s : State} (inv : Inv cfg a s) (r : Round) (hwf : Roun
         rw [hgone] at this; cases this
     have hgo := go_dead cfg reads (goStart cfg a3 evs) (reads.length + 1) hdead
     have hend := roundEnd_ext cfg (Spec.roundBody.go cfg (goStart cfg a3 evs) reads [] (reads.length + 1)) evs []
-    have hall : Spec.CoreExt others (goStart cfg a3 evs) (roundEnd cfg (Spec.roundBody.go cfg (goStart cfg a3 evs) reads []
+    have hallE : Spec.CoreExt others (goStart cfg a3 evs) (roundEnd cfg (Spec.roundBody.go cfg (goStart cfg a3 evs) reads []
         (reads.length + 1)) evs []) := by rw [hgo] at hend ⊢; exact hend
-    refine ⟨⟨sim_coreExt hsimT hall, q.top, q.j⟩, fun p hp hn => hall.noErr (proven_not hp) ?_⟩
-    rw [hgs]
-    exact noErr_applyDepartures evs (hX.noErr (proven_not hp) (by unfold Spec.NoErr; rw [herrs]; exact hn))
+    refine ⟨⟨sim_coreExt hsimT hallE, q.top, q.j, q.t⟩, fun p hp hc hn => hallE.noErr (proven_not hp) ?_⟩
+    have hn3 : Spec.NoErr p a3 := by unfold Spec.NoErr; rw [herrs]; exact hn
+    by_cases h7 : p = "C07"
+    · subst h7
+      -- the events of the whole round: the `accept` log line, then the periodic section
+      have dK : DepE cfg none none (ticks cfg (readAll cfg reads sP)) (E1 ++ E2) := by
+        obtain ⟨e, o, d⟩ := dtK.dep
+        have o' : (ticks cfg (readAll cfg reads sP)).out = sP.out ++ e := by
+          rw [o]; congr 1; rw [hid]
+        have : e = E1 ++ E2 := List.append_cancel_left (o'.symm.trans hE)
+        rw [← this]; exact d
+      have bk : Back cfg sP (ticks cfg (readAll cfg reads sP)) := by
+        have := (ticks_nest cfg (readAll cfg reads sP)).back cfg
+        rw [hid] at this ⊢; exact this
+      have dAll : DepE cfg none none (ticks cfg (readAll cfg reads sP)) evs := by
+        rw [hevs]; exact (dPre' (hc rfl)).append dK bk
+      exact goStart_c07 s.out evs hsimA q.top.aopen q.j q.t he dAll hn3
+    · rw [hgs]
+      refine noErr_applyDepartures evs (hX.noErr (fun hm => ?_) hn3)
+      rcases List.mem_cons.mp hm with x | x
+      · exact h7 x
+      · exact proven_not hp x
   · -- at least one frame was read
     rw [hsplit, hp1, List.append_nil]
     have hend := roundEnd_ext cfg (Spec.roundBody.go cfg (goStart cfg a3 eAcc) reads (Spec.splitRd (E1 ++ E2)).2
       (reads.length + (Spec.splitRd (E1 ++ E2)).2.length + 1)) eAcc (Spec.splitRd (E1 ++ E2)).2
-    exact ⟨⟨sim_coreExt hp3.sim hend, hp3.top, hp3.j⟩,
-      fun p hp hn => hend.noErr (proven_not hp) (hp4 p hp (herr0 p hp hn))⟩
+    exact ⟨⟨sim_coreExt hp3.sim hend, hp3.top, hp3.j, hp3.t⟩,
+      fun p hp hc hn => hend.noErr (proven_not hp) (hp4 p hp (herr0 p hp hc hn))⟩
 
 end round
 
@@ -862,8 +1006,21 @@ theorem modelRounds_length (cfg : Cfg) : ∀ (s : State) (rs : List Round), (mod
 /-- histories the generator produces -/
 def RoundsWF (rs : List Round) : Prop := ∀ r ∈ rs, RoundWF r
 
+/-- `AccOK` along the run of a history -/
+def AccRounds (cfg : Cfg) : State → List Round → Prop
+  | _, [] => True
+  | s, r :: rs => AccOK s r ∧ AccRounds cfg (step cfg s r) rs
+
+/-- histories in which a round that accepts a new connection delivers no frame -/
+def AccAlone (rs : List Round) : Prop := ∀ r ∈ rs, r.accept = true → r.reads = []
+
+theorem accRounds_of_alone (cfg : Cfg) : ∀ (rs : List Round) (s : State), AccAlone rs → AccRounds cfg s rs
+  | [], _, _ => trivial
+  | r :: rs, s, h => ⟨fun ha => by unfold readsS; rw [h r (by simp) ha]; rfl,
+      accRounds_of_alone cfg rs _ (fun x hx => h x (by simp [hx]))⟩
+
 section hist
-variable {cfg : Cfg} (ok : CfgOK cfg) (hfuel : cfg.fuel = 0) (hperm : OrdPerm cfg)
+variable {cfg : Cfg} (ok : CfgOK cfg) (hfuel : cfg.fuel = 0) (hperm : OrdPerm cfg) (hmt : cfg.mtClosed ≠ cfg.allTypes)
 include ok hfuel
 
 theorem step_out {a : A} {s : State} (inv : Inv cfg a s) (r : Round) (hwf : RoundWF r) :
@@ -874,10 +1031,12 @@ theorem step_out {a : A} {s : State} (inv : Inv cfg a s) (r : Round) (hwf : Roun
   obtain ⟨E2, hE2, _, _⟩ := (ticks_nest cfg (readAll cfg (readsS s r) (preS cfg s r))).ext
   exact ⟨eAcc ++ (E1 ++ E2), by rw [hE2, hE1, hPout]; simp⟩
 
+include hmt
+
 /-- the initial states: nothing accepted, only the manager's own table entry -/
-theorem init_sim : Inv cfg ({} : A) (init cfg) := by
+theorem init_sim (hord : OrdOK cfg) : Inv cfg ({} : A) (init cfg) := by
   have t := top_init ok hfuel
-  refine ⟨?_, t, init_J cfg⟩
+  refine ⟨?_, t, init_J cfg, run_T ok hmt hord hfuel []⟩
   have n : Nest ({ mods := [{ uid := 0, name := "message_manager".toList.map (·.toNat), pid := cfg.mmPid, connected := true }] } : State)
       (init cfg) := logTop_nest cfg 20 _
   -- every table entry of `init` is the manager's own
@@ -932,46 +1091,53 @@ include hperm
 /-- the rounds of a history, one after the other -/
 theorem rounds_ok : ∀ (rs : List Round) (a : A) (s : State), Inv cfg a s → RoundsWF rs →
     Inv cfg ((List.zip rs (modelRounds cfg s rs)).foldl (fun a p => Spec.round cfg a p.1 p.2) a) (rs.foldl (step cfg) s) ∧
-    (∀ p ∈ proven, Spec.NoErr p a →
+    (∀ p ∈ proven, (p = "C07" → AccRounds cfg s rs) → Spec.NoErr p a →
       Spec.NoErr p ((List.zip rs (modelRounds cfg s rs)).foldl (fun a p => Spec.round cfg a p.1 p.2) a)) ∧
     s.out ++ (modelRounds cfg s rs).flatten = (rs.foldl (step cfg) s).out
-  | [], a, s, inv, _ => ⟨inv, fun _ _ h => h, by simp [modelRounds]⟩
+  | [], a, s, inv, _ => ⟨inv, fun _ _ _ h => h, by simp [modelRounds]⟩
   | r :: rs, a, s, inv, hwf => by
     have hr : RoundWF r := hwf r (by simp)
     obtain ⟨evs, hevs⟩ := step_out ok hfuel inv r hr
     have hre : roundEvents cfg s r = evs := by
       unfold roundEvents; rw [hevs, List.drop_left]
-    obtain ⟨inv1, herr1⟩ := round_ok ok hfuel hperm inv r hr evs hevs
+    obtain ⟨inv1, herr1⟩ := round_ok ok hfuel hperm hmt inv r hr evs hevs
     obtain ⟨inv2, herr2, hfl2⟩ := rounds_ok rs (Spec.round cfg a r evs) (step cfg s r) inv1 (fun x hx => hwf x (by simp [hx]))
     simp only [modelRounds, List.zip_cons_cons, List.foldl_cons, hre, List.flatten_cons]
-    refine ⟨inv2, fun p hp hn => herr2 p hp (herr1 p hp hn), ?_⟩
+    refine ⟨inv2, fun p hp hc hn => herr2 p hp (fun h7 => (hc h7).2) (herr1 p hp (fun h7 => (hc h7).1) hn), ?_⟩
     rw [← hfl2, hevs, List.append_assoc]
 
 /-- **The model meets the Spec, for the proved properties.**  Run the model on any well-formed history, hand the Spec
 the history and the events the model wrote, round by round: the Spec's verdict contains no entry for a property in
-`proven` — and its abstract state at the end simulates the model's final state. -/
+`proven` (for C07: on histories in which a round that accepts a connection delivers no frame, `AccAlone`) — and its
+abstract state at the end simulates the model's final state. -/
 theorem model_meets_spec_proven (rs : List Round) (hwf : RoundsWF rs) :
-    ∀ p ∈ proven, Spec.NoErr p (Spec.runSpec cfg rs (modelObs cfg rs) none) := by
-  intro p hp
+    ∀ p ∈ proven, (p = "C07" → AccAlone rs) → Spec.NoErr p (Spec.runSpec cfg rs (modelObs cfg rs) none) := by
+  intro p hp hacc
+  have hord : OrdOK cfg := ordOK_of_perm hperm
+  have hallO : OrdAll cfg := OrdAll_of_perm hperm
   unfold Spec.runSpec
   simp only [modelObs, List.drop_succ_cons, List.drop_zero, List.length_cons, modelRounds_length, Option.isSome_none,
     Bool.or_false, beq_self_eq_true]
   have h0 : Spec.NoErr p (({} : A).chk true "C03" "the manager did not play every round of the script") := by
     intro e he; cases he
-  obtain ⟨_, herr, hflat⟩ := rounds_ok ok hfuel hperm rs
-    (({} : A).chk true "C03" "the manager did not play every round of the script") (init cfg) (init_sim ok hfuel) hwf
-  have h1 := herr p hp h0
+  obtain ⟨_, herr, hflat⟩ := rounds_ok ok hfuel hperm hmt rs
+    (({} : A).chk true "C03" "the manager did not play every round of the script") (init cfg)
+    (init_sim ok hfuel hmt hord) hwf
+  have h1 := herr p hp (fun h7 => accRounds_of_alone cfg rs _ (hacc h7)) h0
   have hnot := proven_not hp
-  -- the whole log is the model's log: no malformed frame in it
+  -- the whole log is the model's log: no malformed frame in it, nothing written to a connection after it failed
   have hall : ((init cfg).out :: modelRounds cfg (init cfg) rs).flatten = (run cfg rs).out := by
     rw [List.flatten_cons]; exact hflat
   have hbroken := lok_broken (evs := ((init cfg).out :: modelRounds cfg (init cfg) rs).flatten)
     (by rw [hall]; exact run_lok cfg rs)
+  have hafter : ∀ u, (Spec.sends ((((init cfg).out :: modelRounds cfg (init cfg) rs).flatten.dropWhile
+      (fun e => !(e == .wfail u || e == .close u))).drop 1)).any (·.1 == u) = false := by
+    intro u; rw [hall]
+    exact nothing_after_fail (run_J cfg rs) (run_adj ok hallO hfuel rs) u
   refine (Spec.checkNoNotice_ext cfg _ _).noErr (fun h => hnot ?_)
-    ((Spec.checkC05_c03 _ _ _ hbroken).noErr (fun h => hnot ?_) h1)
+    ((Spec.checkC05_c37 _ _ _ hbroken hafter).noErr (fun h => hnot ?_) h1)
   · simp only [List.mem_singleton] at h; subst h; simp [others]
-  · simp only [List.mem_cons, List.not_mem_nil, or_false] at h
-    rcases h with h | h <;> subst h <;> simp [others]
+  · simp only [List.mem_singleton] at h; subst h; simp [others]
 
 end hist
 
